@@ -6,6 +6,7 @@ pub mod c02;
 pub mod c04;
 pub mod c07;
 pub mod c09;
+pub mod c10;
 pub mod c11;
 pub mod c12;
 pub mod c13;
@@ -87,6 +88,7 @@ pub fn generate(prop: &str, tier: &str, g: &mut Gen) {
         "C09" => c09::generate(g, thorough),
         "C15" => grid::generate_c15(g, thorough),
         "C13" => c13::generate(g, thorough),
+        "C10" => c10::generate(g, thorough),
         "C11" => c11::generate(g, thorough),
         _ => {}
     }
